@@ -2,6 +2,7 @@ import Uhppote.Driver.OpWire
 import Uhppote.Driver.ModelCodec
 import Uhppote.Gen.Routing
 import Uhppote.Model.Events
+import Uhppote.Gen.Discover
 /-! `listen` and `discover` lines: model and spec handlers. -/
 namespace Uhppote.Driver.Events
 open Uhppote Uhppote.Model Uhppote.Model.Api Uhppote.Model.Events Uhppote.Driver.OpWire Uhppote.Driver.Wire
@@ -31,7 +32,8 @@ def model : List String → Option String
     let ds ← hs.mapM fromHex
     let L ← Gen.Messages.all.lookup "GetDeviceResponse"
     let Lq ← Gen.Messages.all.lookup "GetDeviceRequest"
-    let es := discover Gen.codecFacts Driver.ModelCodec.T Driver.ModelCodec.wireBounds cfg L ds
+    -- (the entry is built by the function translated from GetDevices: Gen/Discover.lean; C11_entry_regenerated)
+    let es := ds.filterMap (entryWith Gen.codecFacts Driver.ModelCodec.T Driver.ModelCodec.wireBounds Gen.Discover.entry cfg L)
     let bc := if cfg.broadcastValid then cfg.broadcast else cfg.defaultBroadcast
     match marshal Gen.codecFacts Driver.ModelCodec.T Lq [.u8 0, .u32 0] with
     | .ok m => some (s!"1 broadcast {bc} {showHex m} ; " ++ " / ".intercalate (es.map showEntry))
